@@ -91,7 +91,14 @@ func solve(script string, file string, timeout time.Duration, needModel bool) So
 			cmd.Stderr = &out
 			cmd.Run()
 			secs := time.Since(start).Seconds()
-			first := strings.TrimSpace(strings.SplitN(out.String(), "\n", 2)[0])
+			first := ""
+			for _, ln := range strings.Split(out.String(), "\n") {
+				ln = strings.TrimSpace(ln)
+				if ln == "sat" || ln == "unsat" || ln == "unknown" || strings.HasPrefix(ln, "(error") || strings.Contains(ln, "timeout") {
+					first = ln
+					break
+				}
+			}
 			st := "error"
 			switch {
 			case first == "unsat" || first == "sat" || first == "unknown":
